@@ -56,6 +56,7 @@ type c06 struct {
 	strict  bool                  // Pebble runs on a strict in-memory FS: unsynced engine files are lost at power loss
 	fsByDir map[string]*vfs.MemFS // data dir -> file system of that incarnation
 	prop    string
+	snapshotted map[string]bool // nodes that were (re)built from a snapshot at some point
 }
 
 func (c *c06) dir(n string) string {
@@ -148,6 +149,9 @@ func (c *c06) elect(g *Rng) bool {
 		if n != leader {
 			fm[nodeInternal(n)] = h
 			c.attached[n] = true
+			if h.Offset == wal.InvalidOffset && heads[leader].Offset >= 0 {
+				c.snapshotted[n] = true
+			}
 		}
 	}
 	ctx, cancel := context.WithTimeout(context.Background(), 120*time.Second)
@@ -179,6 +183,9 @@ func (c *c06) attach(n string) bool {
 		return false
 	}
 	c.attached[n] = true
+	if head.Offset == wal.InvalidOffset && c.wl.c.folded >= 0 {
+		c.snapshotted[n] = true
+	}
 	if head.Offset == wal.InvalidOffset {
 		c.r.Count("empty_follower_attached", 1)
 	}
@@ -382,7 +389,11 @@ func (c *c06) checkAfterRestart(n string) {
 	if v.Wal != nil {
 		last = v.Wal.LastOffset()
 	}
-	if off > last {
+	if off > last && last == wal.InvalidOffset && c.snapshotted[n] && off <= c.wl.c.folded {
+		// empty log: the state came from an installed snapshot (the log restarts after it); the
+		// property allows that, as long as the snapshot holds committed entries only
+		c.r.Count("restart_on_snapshot_state", 1)
+	} else if off > last {
 		c.wl.fail("commit-offset-ahead-of-log", "after crash and restart, %s's DB stores commit offset %d but its log ends at offset %d (first %d; wal files: %s)", n, off, last, v.Wal.FirstOffset(), listFiles(filepath.Join(sn.Dir, "wal")))
 		return
 	}
@@ -598,7 +609,7 @@ func runReplicas(r *Run, prop string) {
 	oldChunk := kv.MaxSnapshotChunkSize
 	kv.MaxSnapshotChunkSize = chunk
 	defer func() { kv.MaxSnapshotChunkSize = oldChunk }()
-	c := &c06{r: r, names: []string{"n1", "n2", "n3"}, dirSeq: map[string]int{}, started: map[string]bool{"n1": true}, attached: map[string]bool{},
+	c := &c06{r: r, names: []string{"n1", "n2", "n3"}, dirSeq: map[string]int{}, started: map[string]bool{"n1": true}, attached: map[string]bool{}, snapshotted: map[string]bool{},
 		prop: prop, strict: c07, fsByDir: map[string]*vfs.MemFS{}}
 	if c.strict {
 		c.cfgMod = func(cfg *server.Config) {
@@ -620,6 +631,14 @@ func runReplicas(r *Run, prop string) {
 	defer wl.w.Close()
 	g := wl.g
 	c.wl, c.w = wl, wl.w
+	// snapshot installations are seen on the wire
+	wl.w.Net.Tap = func(t *TapMsg) {
+		if t.Kind == "open" && strings.HasSuffix(t.Method, "/SendSnapshot") {
+			c.snapshotted[t.Dst] = true
+			r.Count("snapshots_started", 1)
+		}
+	}
+	defer func() { wl.w.Net.Tap = nil }()
 	if c07 {
 		// right after a batch commit: sometimes the engine flushes its memtable (it may at any
 		// time), sometimes the goroutine is held for a moment -- a quiescent point at which a
